@@ -7,21 +7,25 @@ import kv
 META = {
     "property_id": "C10",
     "engine": "lean-lockset",
-    "technique": "Lean 4: generic soundness theorem of the lockset discipline over an abstract lock/happens-before semantics (Mutex, RWMutex modes, go-statements), "
-                 "evaluated by the kernel on an access table REGENERATED from the sources by a go/types translator (field read/write sites, must-locksets with caller-holds "
-                 "propagation, atomics, constructor phase, reviewed hand-off annotations); the table is validated by generated concurrent client programs over the exported "
-                 "methods run under the Go race detector, every report mapped back onto the table by a compiled Lean oracle",
+    "technique": "Lean 4: (1) generic soundness theorem of the lockset discipline over an abstract lock/happens-before semantics (Mutex, RWMutex modes, go statements, hand-offs); "
+                 "(2) a must-lockset analysis over program skeletons, proved sound for all runs (an_sound, prog_sound) and evaluated by the kernel on skeletons REGENERATED from the "
+                 "sources (control structure, lock operations, access sites, static/interface calls, closures) — it re-derives every lockset of the regenerated access table "
+                 "(repo_table_justified, repo_locks_held); (3) a simulation theorem from per-goroutine skeleton runs to global executions (sim) giving Respects and race freedom "
+                 "for every execution whose goroutines follow the skeletons (repo_no_race_of_conformance_tokens); the table and skeletons are validated by generated concurrent "
+                 "client programs over all 120 exported methods run under the Go race detector, every report classified against the table by a compiled Lean oracle",
     "level_claimed": {
         "category": "proof",
-        "text": "Kernel-checked: (1) lockset_sound — for every access table satisfying raceFree and every well-formed execution of the abstract semantics that respects the table, "
-                "any two conflicting accesses of different goroutines are ordered by happens-before (all executions, all tables, Mutex and RWMutex modes); (2) repo_race_free — "
-                "the table regenerated from the working tree satisfies raceFree (evaluation over ~1300 rows / 270 fields incl. package-level variables, protocol pages, codec objects and followed pointer aliases). PARTIAL by nature: the theorem is about the extracted "
-                "abstraction; that real executions respect the table (extractor soundness, field-identity aliasing, annotated hand-offs) is an assumption, sampled by race-detector runs.",
+        "text": "Kernel-checked: lockset_sound / lockset_sound_tokens (all tables, all executions); repo_race_free (the regenerated table, ~1360 rows / 280 locations incl. package-level "
+                "variables, protocol pages, codec objects, followed pointer aliases, published pointees); an_sound + prog_sound (the lockset analysis is sound for every run of every "
+                "skeleton program); repo_skeleton_check / repo_table_justified / repo_locks_held (all 469 locked rows of the table are re-derived from the ~860 regenerated skeletons, "
+                "0 unjustified); repo_no_race_of_conformance_tokens (no race in any well-formed execution whose goroutines follow the skeletons, given table completeness, token "
+                "hand-offs and 26 annotated assumptions). PARTIAL by nature: the translation source→skeleton/table (syntax only, positions) and the annotations are trusted, "
+                "sampled by race-detector runs.",
         "design_ref": "DESIGN.md §7 C10",
     },
     "level_note": "Weakest fit of the twenty (stated in DESIGN.md): proof over an extracted abstraction + race-detector sampling. Trusted/assumed (docs/notes/C10.md, "
-                  "section `What Respects assumes`, U1-U8, with regression patches seeded/C10-unsound-*): the go/types extractor (syntactic must-locksets; interface calls "
-                  "by class-hierarchy edges; function values and go-targets from the empty lockset; pointer aliases followed only from &x.f call arguments into struct fields; "
+                  "section `What Respects assumes`, U1-U8, with regression patches seeded/C10-unsound-*): the go/types extractor — since round 4 only its TRANSLATION of syntax into skeletons and table rows (the dataflow is re-derived in Lean); interface calls "
+                  "by class-hierarchy candidates under the icall restriction (5 of 444 sites use it); function values and go-targets from the empty lockset; pointer aliases followed only from &x.f call arguments into struct fields; "
                   "locks and fields identified by Type.field, not by instance; unlocks through unnamed *sync.Mutex locals ignored); the reviewed annotations in "
                   "go/extract/accesses/access_annotations.json (closure locks of Conn.do, the read-lock hand-off waitResponse→Batch incl. the data-dependent guard batch.err, ownership "
                   "tokens for writeBatch / Writer.writerStats / Reader.cancel / protocol pages / per-call codec objects, SASL-before-publication, atomic stats types); the Go "
